@@ -84,6 +84,12 @@ int main(int argc, char **argv)
     if (mode == 1) {
       if (lg_names_case(i, L)) {
         vh_count("names_blocks_done");
+        if (vh_want_sample()) {
+          char sj[160];
+          snprintf(sj, sizeof(sj), "{\"profile\":\"names\",\"block\":%llu,\"max_length\":%d,\"buffers_so_far\":%llu}", (unsigned long long)i, L,
+                   (unsigned long long)lg_c_nm_buffers);
+          vh_sample(sj);
+        }
       } else {
         vh_inconclusive("beyond-enumeration");
       }
@@ -104,6 +110,17 @@ int main(int argc, char **argv)
           fprintf(stderr, "%02x", lg_case_buf[k]);
         }
         fprintf(stderr, "\n");
+      }
+      if (vh_want_sample()) {
+        char   sj[400];
+        size_t k, o;
+        o = (size_t)snprintf(sj, sizeof(sj), "{\"profile\":\"%s\",\"idx\":%llu,\"input_kind\":\"%s\",\"len\":%zu,\"first_octets\":\"", a.profile,
+                             (unsigned long long)i, lg_kind_names[kind], len);
+        for (k = 0; k < len && k < 48; k++) {
+          o += (size_t)snprintf(sj + o, sizeof(sj) - o, "%02x", lg_case_buf[k]);
+        }
+        snprintf(sj + o, sizeof(sj) - o, "\"}");
+        vh_sample(sj);
       }
       if (mode == 0) {
         lg_scan(lg_case_buf, len, &sc);
